@@ -58,7 +58,7 @@ def entry_methods(repo, cq):
     return out
 
 
-def judge_value(av, path=""):
+def judge_value(av, path="", strict=False):
     """Yield (path, alias) for each array/frame component aliasing caller data."""
     if av is None:
         return
@@ -82,10 +82,13 @@ def judge_value(av, path=""):
         if av.elem is not None:
             yield from judge_value(av.elem, f"{path}[*]")
     elif k == "unknown":
-        if "elemof" in av.flags:
+        if "elemof" in av.flags and not strict:
             return
         a = ours(av.alias)
-        if a and ("uncertain" in av.flags):
+        if a and strict:
+            # a value yielded as a column: whatever it is, it may be the caller's own array
+            yield (path or "value") + " (may be the very object taken from receiver/arguments)", a, av
+        elif a and ("uncertain" in av.flags):
             yield (path or "value") + " (through an operation outside the operation table)", a, av
 
 
@@ -121,7 +124,7 @@ def check(ctx):
                     for node, y in summ.yields:
                         n_yield += 1
                         v = y.items[1] if (y.kind == "tuple" and y.items and len(y.items) == 2) else y
-                        probs = list(judge_value(v))
+                        probs = list(judge_value(v, strict=True))
                         ctx.ob("OWN-1", m, f"yield {norm(node.value) if getattr(node, 'value', None) is not None else ''}",
                                node, not probs,
                                "yielded column is fresh" if not probs else
